@@ -6,6 +6,7 @@ CONSTANTS Mode = "chain"
           Wait = 3
           ForkAt = 203
           DepositAt = 203
+          LeadZ = 0
           Heights = {199, 202, 203, 204, 205, 206, 207}
           EmitOn = TRUE
 INVARIANT PropC23
